@@ -383,6 +383,9 @@ def build(spec):
             A2 = p.declare_function(LinearOperator, L=3.0)          # sampled once, its transpose never
             c.funcs["A2"] = A2
             c.points["A2x"] = A2.gradient(x0)
+            f4 = p.declare_function(ConvexLipschitzFunction, M=1.5)   # unnamed, one-point condition, declared AFTER the operators
+            c.funcs["f4"] = f4
+            c.points["g4"] = f4.gradient(x0)
             con_T = (c.points["ATx"] ** 2 <= 3.5)                     # a constraint declared on the TRANSPOSE object
             A.T.add_constraint(con_T)
             c.constraints["on_transpose"] = con_T
